@@ -14,7 +14,7 @@ seed = int(os.environ.get('VERIF_SEED', '0') or 0) or 1   # libFuzzer: 0 means r
 jobs = int(os.environ.get('VERIF_FUZZ_JOBS', '16'))
 fz = os.path.join(root, 'fuzz')
 t0 = time.time()
-env = dict(os.environ, CARGO_NET_OFFLINE='true')
+env = dict(os.environ, CARGO_NET_OFFLINE='true', CARGO_TARGET_DIR=os.path.join(fz, 'target'))
 b = subprocess.run(['cargo', '+nightly', 'fuzz', 'build', '--fuzz-dir', fz, target], cwd=fz, env=env, capture_output=True, text=True)
 if b.returncode != 0:
     print(b.stderr[-3000:])
@@ -72,7 +72,7 @@ for c in crashes:
     if words is not None:
         rp = keep + '.json'
         json.dump({'property': ID, 'driver': 'libfuzzer', 'target': target, 'tape': words, 'artifact': keep + '.bin'}, open(rp, 'w'))
-        rr = subprocess.run([os.path.join(root, 'target', 'release', 'verif'), ID, 'quick', '--replay', rp], capture_output=True, text=True, env=env)
+        rr = subprocess.run([os.path.join(root, 'target', 'release', 'verif'), ID, 'quick', '--replay', rp], capture_output=True, text=True, env=dict(env, VERIF_ROOT=root))
         confirmed = rr.returncode == 1
         if confirmed:
             violation = rp
